@@ -76,6 +76,9 @@ impl Allocator {
             let id = entity.id() as usize;
 
             if !self.is_alive(entity) {
+                // The entities before `index` have already been killed; recycle
+                // their indices before bailing out so they are not leaked.
+                self.cache.extend(delete[..index].iter().map(|e| e.0));
                 return Err((self.del_err(entity), index));
             }
 
